@@ -33,6 +33,21 @@ CHECKS = {
    note=NOTE_COMMON+" The verdict is relative to the process-pool contract in symx/cfmodel.py (concurrent.futures documentation) and to the exact-solve idealisation; HDF5 back end is an in-memory store (C17 checks real files); worker-local module state is not modelled. Counterexamples are replayed with a real ProcessPoolExecutor, the completion order forced by task run times.",
    technique="differential symbolic execution of the real dispatch/bookkeeping code under a nondeterministic scheduler model (completion order and worker count are solver variables; decision-prefix exploration of all permutations) with an uninterpreted solver; SMT validity of result equality per path",
    ref="DESIGN.md §6 C11"),
+ 'C19': dict(
+   text="Extraction and bookkeeping core with the 1D modeller as an uninterpreted function. (A) Model.extract_1d is executed with all "
+        "horizontal widths symbolic under a NONDETERMINISTIC ellipse selection (maps.ellipse_indices returns any boolean mask; each of the "
+        "2^(nx*ny) masks is an explored path): z3 decides weights >= 0, sum 1, equal to the area fractions of the selected cells (cylinder) "
+        "or of their bounding box (prism), zero elsewhere, fallback to the midpoint cell for an empty selection, a laterally invariant "
+        "model returned unchanged layer by layer for every mask and mapping (log10/10** axiomatised), the general weighted (log-)mean, and "
+        "the returned 1-cell grid; 'midpoint' with symbolic points. (B) a shadow Simulation(layered=True) with a laterally invariant "
+        "symbolic model, symbolic observed data whose NaN pattern is symbolic (all 16 patterns are paths) and empymod.bipole as one "
+        "uninterpreted function: every triple with finite observed data (all, if none) holds Bipole(layering, own source/receiver/"
+        "frequency), others NaN, for midpoint/source/receiver/prism/cylinder; the finite-difference gradient summed per layer equals the "
+        "misfit change under a uniform layer perturbation times the mapping's chain rule. Agreement of empymod's numerics with a reference "
+        "is outside the claim.",
+   note=NOTE_COMMON+" empymod.bipole is an uninterpreted function (arguments matched syntactically after a sound normalisation of inverse pairs/reciprocals); the ellipse geometry is replaced by an arbitrary mask; grids <= 3x3 horizontal cells; exact rational widths in (B).",
+   technique="symbolic execution of the real extraction/layered code with path exploration over a nondeterministic selection mask and a symbolic NaN pattern; uninterpreted 1D modeller; SMT validity (NRA with reciprocal variables, UF axioms) per path; replay against real empymod",
+   ref="DESIGN.md §6 C19"),
  'C14': dict(
    text="Symbolic proof for all real values: the six Map* classes, VolumeModel and Model's validation are executed on z3 terms with "
         "exp/ln/log10/10**x as uninterpreted functions constrained by their inverse-pair axioms; z3 decides backward(forward(s)) = s, "
@@ -194,7 +209,6 @@ NA = {
  'C06': "convergence factors of full cycles on 8^3..64^3 grids are floating-point magnitudes; no symbolic encoding within reach of z3/cvc5 (DESIGN §7)",
  'C16': "float power-law search (alpha**n, ceil, log): symbolic exponentiation; reals-for-floats unsound at the ceil/< decision points (DESIGN §7)",
  'C18': "finite list of documented keys x whole-program runs through configparser/regex/file I/O; not a solver problem (DESIGN §7)",
- 'C19': "equality with empymod's compiled Hankel-transform numerics and FD gradients; outside symbolic execution (DESIGN §7)",
 }
 PENDING = "check not built yet in this round (planned, see DESIGN.md §6); listed here until its harness lands"
 ALL = [f"C{i:02d}" for i in range(1, 21)]
